@@ -234,8 +234,8 @@ structure Wire.Keeps (x : Wire) : Prop where
 that request (or none, for an OPTIONS request the library answers itself), the bytes written back are the interim answer
 to `Expect: 100-continue` (if asked) and the response for that request alone, the connection is kept and positioned
 after the request -/
-theorem serveStep_exact (opt : Bool) (base : Bytes) (p : Plan) (x : Wire) (hx : x.Keeps) (rest : Bytes) (i : Inp) (hi : Live i)
-    (hd : i.data = x.bytes ++ rest) :
+theorem serveStep_exact (opt : Bool) (base : Bytes) (p : Plan) (x : Wire) (hx : x.Keeps) (hns : NotClosedByStream x.expected p)
+    (rest : Bytes) (i : Inp) (hi : Live i) (hd : i.data = x.bytes ++ rest) :
     ∃ i' : Inp, serveStep opt base p i =
         (if (serve1 opt x.expected p [] base).called then some x.expected else none,
          interimOf x.expected.headers ++ (serve1 opt x.expected p [] base).wire, true, i') ∧
@@ -254,7 +254,7 @@ theorem serveStep_exact (opt : Bool) (base : Bytes) (p : Plan) (x : Wire) (hx : 
       obtain ⟨a, t, hm⟩ := List.exists_cons_of_ne_nil (proto_ok hx.wf.isProto).1; rw [hm]; rfl
     simp [Request.valid, Wire.expected, h1, h2, h3]
   have hkeep : (serve1 opt x.expected p [] base).keep = true := by
-    unfold serve1; rw [serveOne_keep]; exact hx.stays
+    unfold serve1; rw [serveOne_keep _ _ _ _ _ _ _ hns]; exact hx.stays
   refine ⟨i', ?_, hdat, hlive⟩
   unfold serveStep
   simp only [hne, live_dead hi, Bool.false_eq_true, or_self, if_false]
@@ -266,23 +266,24 @@ any fragmentation (`i` is any live connection state), with bodies framed by leng
 or by `Connection: keep-alive` — are served exactly as if each had arrived alone on a fresh connection: the reader
 consumes exactly one message per turn. -/
 theorem keepalive_seq (opt : Bool) (base : Bytes) : ∀ (l : List (Wire × Plan)) (i : Inp), Live i →
-    (∀ xp ∈ l, xp.1.Keeps) → i.data = (l.map (fun xp => xp.1.bytes)).flatten →
+    (∀ xp ∈ l, xp.1.Keeps) → (∀ xp ∈ l, NotClosedByStream xp.1.expected xp.2) → i.data = (l.map (fun xp => xp.1.bytes)).flatten →
     serveConn opt base (l.map (·.2)) i =
       l.map (fun xp => ((serveStep opt base xp.2 (Inp.ofBytes xp.1.bytes)).1, (serveStep opt base xp.2 (Inp.ofBytes xp.1.bytes)).2.1)) := by
   intro l
   induction l with
-  | nil => intro i _ _ _; rfl
+  | nil => intro i _ _ _ _; rfl
   | cons xp t ih =>
-    intro i hi hk hd
+    intro i hi hk hn hd
     obtain ⟨x, p⟩ := xp
     have hks := hk (x, p) List.mem_cons_self
-    obtain ⟨i', hstep, hdat, hlive⟩ := serveStep_exact opt base p x hks ((t.map (fun xp => xp.1.bytes)).flatten) i hi
+    have hns := hn (x, p) List.mem_cons_self
+    obtain ⟨i', hstep, hdat, hlive⟩ := serveStep_exact opt base p x hks hns ((t.map (fun xp => xp.1.bytes)).flatten) i hi
       (by simpa using hd)
-    obtain ⟨i0, hstep0, _, _⟩ := serveStep_exact opt base p x hks [] (Inp.ofBytes x.bytes) ⟨rfl, rfl⟩ (by simp [Inp.ofBytes])
+    obtain ⟨i0, hstep0, _, _⟩ := serveStep_exact opt base p x hks hns [] (Inp.ofBytes x.bytes) ⟨rfl, rfl⟩ (by simp [Inp.ofBytes])
     simp only [List.map_cons, serveConn]
     rw [hstep, hstep0]
     simp only [if_true]
-    rw [ih i' hlive (fun xp h => hk xp (List.mem_cons_of_mem _ h)) hdat]
+    rw [ih i' hlive (fun xp h => hk xp (List.mem_cons_of_mem _ h)) (fun xp h => hn xp (List.mem_cons_of_mem _ h)) hdat]
 
 /-! ## many clients in flight: each receives the response to its own request -/
 
@@ -389,7 +390,7 @@ theorem stream_roundtrip (proto : Bytes) (code : Nat) (hs : Dic) (parts : List B
     (hp : IsProto proto) (hcode : code < 2147483648) (hh : HandlerHeaders hs)
     (hret : ReturnedAsIs code (setHeader hs sTransferEncoding sChunked)) :
     ∃ (r : Response) (i' : Inp),
-      readResponse (Inp.ofBytes (serializeStream sendBlock (statusLine proto code) (setHeader hs sTransferEncoding sChunked) parts true ++ rest) cuts)
+      readResponse (Inp.ofBytes (serializeStream sendBlock proto code (setHeader hs sTransferEncoding sChunked) parts true ++ rest) cuts)
         = (r, i') ∧
       i'.data = rest ∧ Live i' ∧
       SeesResponse r code proto (setHeader hs sTransferEncoding sChunked) parts.flatten := by
@@ -404,27 +405,60 @@ theorem stream_roundtrip (proto : Bytes) (code : Nat) (hs : Dic) (parts : List B
   have hchunk : isChunked (setHeader hs sTransferEncoding sChunked) = true := by
     unfold isChunked; rw [(header_of_dicGet_none cap_cl hcl).1]; rfl
   obtain ⟨i', hread, hdat, hlive⟩ := readResponse_dict_chunked proto code _ parts rest hp hcode hret.1 hD hcl hte
-    (Inp.ofBytes (serializeStream sendBlock (statusLine proto code) (setHeader hs sTransferEncoding sChunked) parts true ++ rest) cuts)
-    ⟨rfl, rfl⟩ (by simp [Inp.ofBytes, serializeStream, (streamHeaders_named hte hcl).1, (streamHeaders_named hte hcl).2, hchunk, List.append_assoc])
+    (Inp.ofBytes (serializeStream sendBlock proto code (setHeader hs sTransferEncoding sChunked) parts true ++ rest) cuts)
+    ⟨rfl, rfl⟩ (by simp [Inp.ofBytes, serializeStream, (streamHeaders_named proto code hte hcl).1, (streamHeaders_named proto code hte hcl).2.1,
+      (streamHeaders_named proto code hte hcl).2.2, hchunk, List.append_assoc])
   exact ⟨_, i', hread, hdat, hlive, ⟨rfl, rfl, rfl, rfl, rfl⟩⟩
 
-/-- **auto_stream_roundtrip** (after the repair 75c75d0).  A handler that writes its response in pieces with `write(part)`
-and names neither a length nor a coding: the library sends the pieces as chunks, announces `Transfer-Encoding: chunked`
-itself and ends the stream with the last chunk; the client returns the concatenation of the parts and the handler's
-dictionary with the coding added, for every fragmentation. -/
-theorem auto_stream_roundtrip (proto : Bytes) (code : Nat) (hs : Dic) (parts : List Bytes) (rest : Bytes) (cuts : List Nat)
-    (hp : IsProto proto) (hcode : code < 2147483648) (hh : HandlerHeaders hs)
+/-- **auto_stream_roundtrip** (after the repairs 75c75d0, 3e98c13).  A handler that answers an HTTP/1.1 request in pieces
+with `write(part)` and names neither a length nor a coding, with a status that can have a body: the library sends the pieces
+as chunks, announces `Transfer-Encoding: chunked` itself and ends the stream with the last chunk; the client returns the
+concatenation of the parts and the handler's dictionary with the coding added, for every fragmentation. -/
+theorem auto_stream_roundtrip (code : Nat) (hs : Dic) (parts : List Bytes) (rest : Bytes) (cuts : List Nat)
+    (hcode : code < 2147483648) (hbody : bodyless code = false) (hh : HandlerHeaders hs)
     (hret : ReturnedAsIs code (setHeader hs sTransferEncoding sChunked)) :
     ∃ (r : Response) (i' : Inp),
-      readResponse (Inp.ofBytes (serializeStream sendBlock (statusLine proto code) hs parts false ++ rest) cuts) = (r, i') ∧
+      readResponse (Inp.ofBytes (serializeStream sendBlock sHttp11 code hs parts false ++ rest) cuts) = (r, i') ∧
       i'.data = rest ∧ Live i' ∧
-      SeesResponse r code proto (setHeader hs sTransferEncoding sChunked) parts.flatten := by
+      SeesResponse r code sHttp11 (setHeader hs sTransferEncoding sChunked) parts.flatten := by
   have hcl : dicGet hs sContentLength = none :=
     dicGet_none_of_keys (canon_key_ne hh.canon (fun x hx => (hh.noFraming x hx).1))
   have hte : dicGet hs sTransferEncoding = none :=
     dicGet_none_of_keys (canon_key_ne hh.canon (fun x hx => (hh.noFraming x hx).2))
-  rw [serializeStream_own _ _ _ _ hcl hte]
-  exact stream_roundtrip proto code hs parts rest cuts hp hcode hh hret
+  rw [serializeStream_own _ _ _ _ hbody hcl hte]
+  exact stream_roundtrip sHttp11 code hs parts rest cuts (Or.inl rfl) hcode hh hret
+
+/-- **bodyless_stream_plain** (after the repair 3e98c13).  A 1xx, 204 or 304 whose handler sends the headers itself and
+writes nothing goes out as its header block alone: no coding announced, no chunk after it. -/
+theorem bodyless_stream_plain (blk : Nat) (proto : Bytes) (code : Nat) (hs : Dic) (hb : bodyless code = true)
+    (hte : dicGet hs sTransferEncoding = none) :
+    serializeStream blk proto code hs [] false = headerBlock (statusLine proto code) hs := by
+  have ho : ownChunks proto code hs = false := by unfold ownChunks; rw [hb]; simp
+  have he : endByClose proto code hs = false := by unfold endByClose; rw [hb]; simp
+  unfold serializeStream streamHeaders
+  simp [ho, he, sentHeaders_plain (teChunked_of_no_te hte)]
+
+/-- **http10_stream_raw** (after the repair 687f097).  An unframed stream to an HTTP/1.0 request goes out as its pieces, as
+they are, under `Connection: close` — no chunk framing anywhere. -/
+theorem http10_stream_raw (code : Nat) (hs : Dic) (parts : List Bytes) (hb : bodyless code = false)
+    (hcl : dicGet hs sContentLength = none) (hte : dicGet hs sTransferEncoding = none) :
+    serializeStream sendBlock sHttp10 code hs parts false =
+      headerBlock (statusLine sHttp10 code) (setHeader hs sConnection sClose) ++ parts.flatten := by
+  have hu : unframed hs = true := by unfold unframed hasHeader; rw [cap_te, cap_cl, hte, hcl]; rfl
+  have ho : ownChunks sHttp10 code hs = false := by
+    unfold ownChunks; have : (sHttp10 != sHttp10) = false := by decide
+    rw [this]; simp
+  have he : endByClose sHttp10 code hs = true := by
+    unfold endByClose; have : (sHttp10 == sHttp10) = true := by decide
+    rw [hu, hb, this]; rfl
+  unfold serializeStream streamHeaders
+  simp only [ho, he, Bool.false_eq_true, if_false, if_true, Bool.not_true, Bool.and_false, Bool.or_false]
+  have hp : ∀ p : Bytes, writeBody false sendBlock p = p := writeBody_plain sendBlock sendBlock_pos
+  have : (parts.map (writeBody false sendBlock)) = parts := by
+    induction parts with
+    | nil => rfl
+    | cons a t ih => simp [hp a, ih]
+  rw [this]; simp
 
 /-- **chunked_put_roundtrip** (after the repairs 07183e2, c720b96).  A handler that asks for the chunked coding
 (`setHeader("Transfer-Encoding", "chunked")`) and then gives its body with `put()`: the Content-Length that `put` sets does
